@@ -79,7 +79,7 @@ CHECKS = {
     "C10": dict(
         technique="deterministic simulation: masked word/state/key/AEAD operation histories with the random source replaced at link time by simulator-controlled tapes (zero, ones, constant, periodic, counter, random, adversarial), over share-count x backend configurations",
         category="exploration",
-        text="The five TRNG-mixer functions are replaced by a tape reader so that every 32/64-bit value the masked code draws is chosen by the simulator (this reaches the x86-64 assembly word backend too). Seeded histories over pools of masked words, states and keys (load/load_partial/load_32/store/store_partial/zero/xor/replace/randomize/from_xN/pad/separator; xN_permute for every starting round with preserved or fresh randomness; copy_from/to_x1 and share-count conversions; key init/extract/randomize; the three masked AEADs incl. tampered inputs) are compared, through public observers only, with the unmasked computation by the library itself. Re-randomisation must preserve the value and (random tape, distinct non-zero words, or no word drawn at all) change every share; masked AEAD histories re-randomise their key before and between uses. Quick: 15 configurations; thorough: all 16 valid share combinations on asm, c64 and c32 plus direct-xor and generic.",
+        text="The five TRNG-mixer functions are replaced by a tape reader so that every 32/64-bit value the masked code draws is chosen by the simulator (this reaches the x86-64 assembly word backend too). Seeded histories over pools of masked words, states and keys (load/load_partial/load_32/store/store_partial/zero/xor/replace/randomize/from_xN/pad/separator; xN_permute for every starting round with preserved or fresh randomness; copy_from/to_x1 and share-count conversions; key init/extract/randomize; the three masked AEADs incl. tampered inputs) are compared, through public observers only, with the unmasked computation by the library itself. Re-randomisation must preserve the value and (random tape, distinct non-zero words, or no word drawn at all) change every share; masked AEAD histories re-randomise their key before and between uses. Masked keys are also re-randomised with the library's own random source inside the network world (world channel on three configurations; they must still extract to the key and the masked AEAD must still agree with the ledger). Quick: 15 configurations; thorough: all 16 valid share combinations on asm, c64 and c32 plus direct-xor and generic.",
         note="Trusted: the library's unmasked permutation/AEAD as reference; tape reader; value semantics of load_partial/replace/pad as documented in ascon-masked-word.h.",
         design="§3 W7, §4 C10"),
     "C06": dict(
